@@ -195,6 +195,7 @@ static void sc_semaphore(void) {
 	p_semaphore_take_ownership(s);
 	if (!p_semaphore_acquire(s, &err)) DAMAGE("acquire on a fresh semaphore of value 2 failed"); p_error_free(err); err = NULL;
 	s2 = p_semaphore_new(name, 5, P_SEM_ACCESS_OPEN, &err); p_error_free(err); err = NULL;
+	{ char pth0[64]; VA_QUIET(vh_sem_path(name, pth0)); if (!vh_exists(pth0)) DAMAGE("a %s second p_semaphore_new(OPEN) removed the name the first handle still uses", s2 ? "successful" : "failed"); }
 	if (s2) { (void)p_semaphore_release(s2, NULL); p_semaphore_free(s2); }
 	(void)p_semaphore_release(s, NULL);
 	{ char pth[64]; long v; VA_QUIET(vh_sem_path(name, pth)); v = vh_sem_file_value(pth); if (v >= 0 && v != (s2 ? 3 : 2)) DAMAGE("semaphore counter is %ld after acquire, %s release", v, s2 ? "two" : "one"); }
@@ -209,6 +210,8 @@ static void sc_shm(void) {
 	p_shm_take_ownership(a);
 	if (p_shm_lock(a, &err)) { memset(p_shm_get_address(a), 0x5a, p_shm_get_size(a)); (void)p_shm_unlock(a, NULL); } p_error_free(err); err = NULL;
 	b = p_shm_new(name, 4096, P_SHM_ACCESS_READONLY, &err); p_error_free(err); err = NULL;
+	{ char pth[64], sp[64]; int gone; VA_QUIET((vh_shm_path(name, pth), vh_shm_sem_path(name, sp))); gone = !vh_exists(pth) || !vh_exists(sp);
+	  if (gone) DAMAGE("a %s second p_shm_new removed the name of the segment the first handle still uses", b ? "successful" : "failed"); }
 	if (b) { if (((unsigned char *)p_shm_get_address(b))[100] != 0x5a) DAMAGE("second handle does not see the first handle's bytes"); p_shm_free(b); }
 	if (((unsigned char *)p_shm_get_address(a))[4095] != 0x5a) DAMAGE("segment content changed");
 	{ pboolean ok = FALSE; VA_QUIET(ok = p_shm_lock(a, NULL) && p_shm_unlock(a, NULL)); if (!ok) DAMAGE("first handle cannot lock/unlock after a %s second open", b ? "successful" : "failed"); }
@@ -224,6 +227,8 @@ static void sc_shmbuffer(void) {
 	p_shm_buffer_take_ownership(a); p_shm_buffer_clear(a);
 	(void)p_shm_buffer_write(a, (ppointer)"0123456789", 10, &err); p_error_free(err); err = NULL;
 	b = p_shm_buffer_new(name, 100, &err); p_error_free(err); err = NULL;
+	{ char pth[64], sp[64]; int gone; VA_QUIET((vh_shm_path(name, pth), vh_shm_sem_path(name, sp))); gone = !vh_exists(pth) || !vh_exists(sp);
+	  if (gone) DAMAGE("a %s second p_shm_buffer_new removed the name of the buffer the first handle still uses", b ? "successful" : "failed"); }
 	if (b) { if (p_shm_buffer_read(b, out, 4, NULL) == 4 && memcmp(out, "0123", 4)) DAMAGE("buffer content wrong"); (void)p_shm_buffer_get_free_space(b, NULL); p_shm_buffer_free(b); }
 	{ pssize used = -2, expect = -1; int wrote = 0, readn = 0; (void)wrote; (void)readn;
 	  VA_QUIET(used = p_shm_buffer_get_used_space(a, NULL)); expect = used;
@@ -487,6 +492,18 @@ static void sc_tls_first_use(void) {
 	}
 }
 
+/* CREATE mode over a name that a vanished process left behind: the creating handle owns the new object, its free removes the name */
+#include <semaphore.h>
+static void sc_sem_create_over_stale(void) {
+	const char *name = reg_name(0, "%s-stale", uniq); char key[16]; sem_t *raw; PSemaphore *s; PError *err = NULL;
+	VA_QUIET(vh_ipc_key(name, VH_SEM_SUFFIX, key));
+	raw = sem_open(key, O_CREAT, 0660, 1); if (raw == SEM_FAILED) return; sem_close(raw);          /* stale name, nobody holds it */
+	s = p_semaphore_new(name, 2, P_SEM_ACCESS_CREATE, &err); p_error_free(err);
+	if (!s) { sem_unlink(key); return; }
+	if (!p_semaphore_acquire(s, NULL) || !p_semaphore_release(s, NULL)) DAMAGE("semaphore created over a stale name cannot be acquired/released");
+	p_semaphore_free(s);
+}
+
 static int in_reinit;
 static void sc_init_shutdown(void) { PMemVTable vt = va_vtable(); in_reinit = 1; p_libsys_shutdown(); p_libsys_init_full(&vt); }
 
@@ -496,7 +513,7 @@ static struct { const char *name; void (*fn)(void); } SC[] = {
 	{ "sockaddr", sc_sockaddr }, { "socket_tcp", sc_socket_tcp }, { "socket_udp", sc_socket_udp }, { "thread", sc_thread }, { "thread_foreign", sc_thread_foreign },
 	{ "locks", sc_locks }, { "profiler", sc_profiler }, { "libloader", sc_libloader }, { "file", sc_file },
 	{ "sock_refused", sc_sock_refused }, { "sock_timeouts", sc_sock_timeouts }, { "sock_bind_used", sc_sock_bind_used }, { "ipc_multi", sc_ipc_multi }, { "threads_tls", sc_threads_tls },
-	{ "sock_fromfd", sc_sock_fromfd }, { "mem_mmap", sc_mem_mmap }, { "shmbuffer_small_segment", sc_shmbuffer_small_segment }, { "tls_first_use", sc_tls_first_use },
+	{ "sock_fromfd", sc_sock_fromfd }, { "mem_mmap", sc_mem_mmap }, { "shmbuffer_small_segment", sc_shmbuffer_small_segment }, { "tls_first_use", sc_tls_first_use }, { "sem_create_over_stale", sc_sem_create_over_stale },
 	{ "init_shutdown", sc_init_shutdown },
 };
 #define NSC ((int)(sizeof SC / sizeof SC[0]))
